@@ -174,7 +174,9 @@ impl<Body> AmendedRequest<Body> {
     }
 
     pub fn new_uri_from_location(&self, location: &str) -> Result<Uri, Error> {
-        let base = Url::parse(&self.uri().to_string()).expect("base uri to be a url");
+        // The request uri is not absolute, or the request was already taken to follow this redirect.
+        let base = Url::parse(&self.uri().to_string())
+            .map_err(|_| Error::BadLocationHeader(location.to_string()))?;
 
         let url = base
             .join(location)
